@@ -100,6 +100,15 @@ def gen(ctx):
         if rng.random() < 0.35:      # array documents, so that indexes / slices / projections used as arguments select something
             doc = "[ " + " ".join(G.rand_doc(rng, 1) for _ in range(rng.randrange(1, 5))) + " ]"
         cases.append((ops, doc, qs))
+    # the same function called with arguments that do and do not satisfy its signature, alternately, within ONE history (a validator that remembers
+    # what it accepted last — by call shape, by address — lets the next ill-typed call through): bad, good, bad, good, bad
+    alt = {5: ("`[1,2]`", "`[1,\"a\"]`"), 10: ("`[[1],[2]]`", "`[[1],[\"a\"]]`"), 11: ("`[\"a\",1]`", "`[\"a\",null]`"), 12: ("`[[null,\"a\"],[]]`", "`[[null],[1]]`"),
+           13: ("`[1]`, 'x'", "`[1]`, `[2]`"), 2: ("`1`, 'x'", "'x', `1`"), 7: ("'a', 'b'", "'a', `1`"), 9: ("`1`, `null`", "`1`, 'x'"), 3: ("&a, `[1]`", "&a, `1`")}
+    for sig, (good, bad) in sorted(alt.items()):
+        for pre in ([("b",)], []):
+            ops = pre + [("r", "foo", 7, sig), ("r", "bar", 8, sig)]
+            qs = ["foo(%s)" % bad, "foo(%s)" % good, "foo(%s)" % bad, "bar(%s)" % bad, "foo(%s)" % good, "bar(%s)" % good, "bar(%s)" % bad, "foo(%s)" % bad]
+            cases.append((ops, "n", qs))
     return cases
 
 
